@@ -265,7 +265,16 @@ func genC12(repo string, args []string) (string, error) {
 	// ---- handleCommentMatch / handleMatch
 	hcs := c03StmtSet(fset, hc)
 	filterFirst := false
-	if is, ok := hc.Body.List[0].(*ast.IfStmt); ok && exprString(fset, is.Cond) == "rule.base.filter.fn != nil" && len(is.Body.List) >= 2 {
+	// the first statement that is not a plain reset of a field of the reused report data
+	first := 0
+	for first < len(hc.Body.List)-1 {
+		as, ok := hc.Body.List[first].(*ast.AssignStmt)
+		if !ok || len(as.Lhs) != 1 || len(as.Rhs) != 1 || !strings.HasPrefix(exprString(fset, as.Lhs[0]), "rr.reportData.") || exprString(fset, as.Rhs[0]) != "nil" {
+			break
+		}
+		first++
+	}
+	if is, ok := hc.Body.List[first].(*ast.IfStmt); ok && exprString(fset, is.Cond) == "rule.base.filter.fn != nil" && len(is.Body.List) >= 2 {
 		filterFirst = normStmt(fset, is.Body.List[0]) == normText("rr.filterParams.match = m") &&
 			normStmt(fset, is.Body.List[1]) == normText("filterResult := rule.base.filter.fn(&rr.filterParams)")
 	}
@@ -325,8 +334,8 @@ func genC12(repo string, args []string) (string, error) {
 		}
 		return true
 	}
-	add("handleCommentMatch: RuleInfo, Node, Message and Suggestion of the reused report are all assigned unconditionally before Report",
-		reportFields(hc, []string{"RuleInfo", "Node", "Message", "Suggestion"}))
+	add("handleCommentMatch: RuleInfo, Node, Message, Suggestion and Func of the reused report are all assigned unconditionally before Report",
+		reportFields(hc, []string{"RuleInfo", "Node", "Message", "Suggestion", "Func"}))
 	add("handleMatch: RuleInfo, Node, Message, Suggestion and Func of the reused report are all assigned unconditionally before Report",
 		reportFields(hm, []string{"RuleInfo", "Node", "Message", "Suggestion", "Func"}))
 	add("handleCommentMatch: a Suggest template always yields a Suggestion of the reported node",
